@@ -58,7 +58,8 @@ def loop_fingerprints():
 # footprint was written from no longer matters once that theorem has been re-proved on the regenerated definition: a differing
 # fingerprint is recorded in the evidence as superseded (same idea as tools/handmodels.py: BRIDGED).  Exact scope: index in
 # C12_loops.json -> (file, the ONE function that must contain the loop, theorems).  Superseded only if (a) the number and order of
-# `#pragma omp` lines, their files and the pragma texts are all unchanged (only the sha of the loop statement differs), (b) the loop
+# `#pragma omp` lines, their files and the pragma texts are all unchanged (only the sha of the loop statement differs; for the bridged
+# loops themselves the ARGUMENT of `num_threads(...)` may also be another identifier / positive literal, see pragma_shape), (b) the loop
 # is the only OpenMP construct of the current definition of that function (so the theorem about the function's translated loop is a
 # theorem about THIS loop), (c) every listed theorem is among the discharged obligations of a proof phase without broken obligation.
 # Not listed (fingerprint stays binding): the NTT and Merkle loops (their any-order theorems carry shape hypotheses or are stated
@@ -67,6 +68,21 @@ LOOP_BRIDGED = {
     0: ("goldilocks_base_field.cpp", r"Goldilocks::parcpy", ["C12_generated_parcpy_any_order"]),
     1: ("goldilocks_base_field.cpp", r"Goldilocks::parSetZero", ["C12_generated_parSetZero_any_order"]),
 }
+
+
+def pragma_shape(pragma):
+    """the pragma text with the ARGUMENT of its `num_threads(...)` clause blanked, or None when that argument is anything but a plain
+    identifier or a positive decimal literal (no operators, calls or side effects).  The any-order theorems of LOOP_BRIDGED hold for
+    every team size (the iteration starts are run in ANY order, whoever runs them), and the observational part runs the current text
+    over the whole team-size grid, so for a bridged loop the requested team size may be spelled differently; every other token of the
+    pragma (construct, schedule, further clauses, their order) stays binding."""
+    ms = list(re.finditer(r"\bnum_threads\s*\(([^()]*)\)", pragma))
+    if len(ms) != 1:
+        return None
+    arg = ms[0].group(1).strip()
+    if not re.fullmatch(r"[A-Za-z_]\w*|[1-9][0-9]*", arg):
+        return None
+    return re.sub(r"\s+", " ", pragma[:ms[0].start()] + "num_threads(*)" + pragma[ms[0].end():]).strip()
 
 
 def loop_in_function(fn, name_re):
@@ -210,7 +226,8 @@ def run(tier, seed):
     if kn != cur:
         lines, superseded = [], []
         proofs_ok = not res.broken           # translation, build, audit, axioms of Props/C12.lean all fine
-        same_shape = len(kn) == len(cur) and all(a[:2] == b[:2] for a, b in zip(kn, cur))
+        same_shape = len(kn) == len(cur) and all(a[:2] == b[:2] or (i in LOOP_BRIDGED and a[0] == b[0] and pragma_shape(a[1]) == pragma_shape(b[1]) is not None)
+                                                 for i, (a, b) in enumerate(zip(kn, cur)))
         for i in range(max(len(kn), len(cur))):
             a = kn[i] if i < len(kn) else None
             b = cur[i] if i < len(cur) else None
@@ -219,8 +236,8 @@ def run(tier, seed):
                 br = LOOP_BRIDGED.get(i)
                 if (br and proofs_ok and same_shape and br[0] == b[0] and all(t in res.discharged for t in br[2])
                         and loop_in_function(br[0], br[1]) and loop_owner_index(br[0], br[1]) == i):
-                    superseded.append("loop #%d (%s, the parallel loop of %s): text differs from the footprint model's reference; %s re-proved on the "
-                                      "regenerated loop body" % (i, fam, br[1], ", ".join(br[2])))
+                    superseded.append("loop #%d (%s, the parallel loop of %s): %s differs from the footprint model's reference; %s re-proved on the "
+                                      "regenerated loop body" % (i, fam, br[1], "text" if a[1] == b[1] else "num_threads argument (%s)" % b[1], ", ".join(br[2])))
                     continue
                 lines.append("loop #%d (%s, footprint theorem %s): expected %s, current source has %s" % (i, fam, FAMILY_THEOREM.get(fam, "?"), a, b))
         if superseded:
